@@ -29,6 +29,12 @@ Inf  == [t |-> "inf", v |-> 0]
 L(xs) == [t |-> "lst", v |-> xs]
 T(xs) == [t |-> "tup", v |-> xs]
 D(ps) == [t |-> "dct", v |-> ps]
+(* a reward object (coba.primitives L1Reward / BinaryReward / HammingReward / DiscreteReward: classes registered with     *)
+(* getstate/setstate, coba/json.py dumps_registered): c = the registered name, args = the constructor arguments of THIS    *)
+(* object.  It is logged, wherever it sits in a cell, as the one-entry dict {c: state of this object} - [t |-> "rlog"] -   *)
+(* where the state is the object's own (it is a function of c and args only, rendered by the binding; it is not touched by *)
+(* the float / sequence normalisation, so the generator uses only floats with <= 5 decimals in args).                      *)
+R(c, args) == [t |-> "rwd", v |-> <<c, args>>]
 (* a whole-number float beyond the scaled 32-bit representation (k indexes a table kept by the binding: 3965164488755.0,    *)
 (* the largest finite double, -3121000059417.0): a whole number is its own rounding to 5 decimals, so its normal form is itself *)
 Big(k) == [t |-> "big", v |-> k]
@@ -40,6 +46,7 @@ RECURSIVE Norm(_,_)
 Norm(x, top) ==
   CASE x.t = "flt" -> IF x.v % 10000000 = 0 THEN I(x.v \div 10000000) ELSE [t |-> "f5", v |-> Round5(x.v)]
     [] x.t \in {"lst","tup"} -> [t |-> IF top THEN "tup" ELSE "lst", v |-> [i \in DOMAIN x.v |-> Norm(x.v[i], FALSE)]]
+    [] x.t = "rwd" -> [t |-> "rlog", v |-> x.v]
     [] x.t = "dct" -> D([i \in DOMAIN x.v |-> <<KeyStr(x.v[i][1]), Norm(x.v[i][2], FALSE)>>])
     [] OTHER -> x
 
@@ -51,6 +58,10 @@ TextVals == {S("e\\n\"x"), Inf, NaN, T(<<I(1), I(2)>>), D(<<<<S("L1"), F(2500000
 SmallVals == {I(7), F(1234567), None, L(<<I(1), F(1234567)>>), D(<<<<I(3), S("x")>>, <<S("y"), L(<<I(1)>>)>>>>)}
 MidVals == {I(0), F(25000000), F(1234567), F(30000000), S("e\\n\"x"), None, NaN, T(<<I(1), I(2)>>), L(<<L(<<I(1)>>), T(<<I(2)>>)>>), D(<<<<I(3), S("x")>>, <<S("y"), L(<<I(1)>>)>>>>)}
 BigVals == {Big(1), Big(2), Big(3), L(<<Big(1), F(1234567)>>)}
+(* reward objects: two states per class (what is logged is the state of the object the evaluator yielded, not of another  *)
+(* object of its class), as a cell and nested in a list cell, with scalar / tuple / list arguments                          *)
+RewardVals == {R("L1", <<I(100)>>), R("L1", <<F(2500000)>>), R("BR", <<I(2), F(5000000)>>),
+               L(<<R("HR", <<L(<<I(1), I(2)>>)>>), R("BR", <<I(1)>>), R("DR", <<L(<<I(0), I(1)>>), L(<<F(5000000), I(1)>>)>>), R("HR", <<L(<<I(3)>>)>>)>>)}
 Keys    == {S("a"), S("b"), I(5)}           \* I(5): a non-string field name
 
 (* a row: set of <<key, value>> with distinct keys *)
